@@ -26,7 +26,9 @@ var evC12 = ev.New("C12", "document model (1-6 columns, 0-12 rows, or 1000-2500 
 
 var csvDelims = []byte{',', ',', ',', ';', '\t', '|', ' ', 'x', ',', ';', 0xFE, 0x80, 0xFF, 0x01, 0xEF, 0x00}
 
-var intCells = []string{"0", "1", "-1", "7", "+5", "007", "010", "0012", "-08", "42", "-0", "123456789012", "9223372036854775807", "-9223372036854775808"}
+var intCells = []string{"0", "1", "-1", "7", "+5", "007", "010", "0012", "-08", "42", "-0", "123456789012", "9223372036854775807", "-9223372036854775808",
+	// zero-padded beyond the length of the longest int text: still ints (the sign and the digits decide, not the length)
+	"000000000000000000007", "+0000000000000000000000012", "-0000000000000000000009223372036854775808", "0000000000000000000000000000000"}
 
 // look like ints but do not fit: the column must fall back to float (or be refused when declared int)
 var bigIntCells = []string{"9223372036854775808", "9999999999999999999", "-9223372036854775809", "18446744073709551616", "+9223372036854775808"}
